@@ -1,6 +1,8 @@
 CONSTANTS
   MaxTasks = 5
   MaxSend = 2
+  WithOnConnect = TRUE
+  HandlerCloses = FALSE
   WithCloser = FALSE
   Dev_NoConnRecheck = FALSE
   Dev_NoInputRecheck = TRUE
